@@ -15,8 +15,8 @@ import SelenModel.Lemmas.Kinds.AllDiff
 One contract theorem for all modelled propagator kinds: `PK.contract_all`.
 
 `PK.WFk` is the static well-formedness a posted propagator must satisfy (it is also the list of
-*checked* kinds: `neq` — a no-op propagator in the code — and linear rows without any non-zero
-coefficient are excluded; they are recorded findings).  `PK.boolVars` are the variables the
+*checked* kinds: linear rows without any non-zero coefficient are excluded, a recorded finding;
+`neq` is included since the repair that makes `NotEquals` fail on two equal fixed sides).  `PK.boolVars` are the variables the
 propagator treats as booleans; the contract holds on stores where those have domains ⊆ {0,1}.
 
 Kinds added later (mul, div, modulo, allEqual, between, count, cardinality, element, table,
@@ -44,7 +44,7 @@ def PK.boolVars : PK → List Nat
 def PK.WFs : PK → Prop
   | .leq x y => x.WF ∧ y.WF
   | .eq x y => x.WF ∧ y.WF
-  | .neq _ _ => False
+  | .neq x y => x.WF ∧ y.WF
   | .add x y _ => x.WF ∧ y.WF
   | .sum xs _ => ∀ x ∈ xs, x.WF
   | .linEq cs xs _ => cs.length = xs.length ∧ ∃ i, i < xs.length ∧ cs.getD i 0 ≠ 0
@@ -70,7 +70,7 @@ def PK.StoreOk : PK → Store → Prop
 def PK.WFk : PK → Prop
   | .leq x y => x.WF ∧ y.WF
   | .eq x y => x.WF ∧ y.WF
-  | .neq _ _ => False
+  | .neq x y => x.WF ∧ y.WF
   | .add x y _ => x.WF ∧ y.WF
   | .sum xs _ => ∀ x ∈ xs, x.WF
   | .linEq cs xs _ => cs.length = xs.length ∧ ∃ i, i < xs.length ∧ cs.getD i 0 ≠ 0
@@ -117,7 +117,7 @@ theorem PK.contract_inv (k : PK) (hwf : k.WFs) (P : Store → Prop)
   cases k with
   | leq x y => exact pkContract_of_contract' P (PK.contract_leq x y hwf.1 hwf.2)
   | eq x y => exact pkContract_of_contract' P (PK.contract_eq x y hwf.1 hwf.2)
-  | neq x y => exact hwf.elim
+  | neq x y => exact pkContract_of_contract' P (PK.contract_neq x y hwf.1 hwf.2)
   | add x y s => exact pkContract_of_contract' P (KArith.PK.contract_add x y s hwf.1 hwf.2)
   | sum xs s => exact pkContract_of_contract' P (KArith.PK.contract_sum xs s hwf)
   | linEq cs xs c => exact pkContract_of_contract' P (KLinear.PK.contract_linEq cs xs c hwf.1 hwf.2)
